@@ -26,6 +26,10 @@ CHECKS = {
    text="The denotation of JSONPath expressions (get_spec in Jp/Expr.v: child, index with negative-from-end, wildcard, descent = self and all descendants, union in listed order, slice with the documented normalisation, filter through the script denotation) is an executable Coq specification; theorems proved about it for all paths/data: position independence of every fragment, compositionality of path evaluation, the index law, and the exact membership and ascending order of a positive-step slice. jp.Expr.Get is compared with the extracted get_spec on a complete grid of slice/index/union bounds (-7..7 x steps -3..3 x lengths 0..5, as last and as inner fragment) and on seeded paths x trees (ordered comparison where the order is defined). Paths ending in a bare descent are excluded (no defined result list).",
    technique="Coq-specified denotation with proved laws + grid-exhaustive and seeded correspondence against the extracted specification",
    design='6/C05'),
+ 'C11': dict(
+   text="Has, First and Locate are modelled in Coq as separately defined evaluators (depth-first search with early exit; selection that carries normalized paths) over the fragment denotation of C05. Proved for all paths and data: Has is true exactly when Get is non-empty, First is the head of Get's result list (hence a member), and the values Locate points at are exactly Get's results in order. The real Has, FirstFound, Locate (every reported path re-evaluated with Get), Expr.Walk, GetNodes/FirstNode/Get on gen data, Get/Has on Keyed+Indexed wrappers and typed slices are compared with the extracted first_spec/has_spec/locate_spec/get_spec on seeded paths x trees. One genuine disagreement (slice normalisation of Locate/Walk, pinned by tests) is a recorded known finding, decided by an extracted specification variant.",
+   technique="Coq proofs relating separately modelled evaluators to the Get denotation + correspondence of eight real evaluators and four data representations",
+   design='6/C11'),
  'C12': dict(
    text="The script denotation (apply_bin/evals/script_match in Jp/Expr.v, numbers as exact rationals) is the executable Coq specification of the operator documentation; proved for all operands: == and != are complements, mismatched kinds and containers are unequal, ordering between different kinds is false, int/float compare by value, a missing path is Nothing for exists/has, evaluation is total (always yields a value), and Match(v) is membership in the filter result. Script.Match and filters are compared with the extracted denotation on the complete operator x left-kind x right-kind matrix (16 x 16 x 16 plus constants, missing paths and Nothing) and on seeded nested equations; every panic of the real code is a violation.",
    technique="Coq-specified operator semantics with proved laws + exhaustive operand-kind matrix correspondence",
